@@ -176,6 +176,17 @@ def run_shard(spec):
         tree = CT.rand_tree(rnd, nf, [rnd.randint(2, spec["maxact"])], p_raise=0.1)
         sel = CT.rand_sel(rnd, nf, rnd.randint(0, 3))
         fpath, fvar = CT.place_focus(rnd, sel)
+        if i % 5 == 0:
+            # shaped case: F(a_F, G(v)) > H > b_H / c_H, where H binds its focus variable several
+            # times and calls G in between (G's value first exists after H already fired), under
+            # an F that may or may not have called G before
+            F, G, H = (rnd.randrange(nf) for _ in range(3))
+            sel = ["call", F, [f"a{F}"], [["call", G, ["v"], []], ["call", H, [rnd.choice([f"b{H}", f"c{H}"])], []]]]
+            fpath, fvar = [1], sel[3][1][2][0]
+            hkids = [[G if rnd.random() < 0.6 else rnd.randrange(nf), [], 0] for _ in range(rnd.randint(2, 3))]
+            fkids = ([[G, [], 0]] if rnd.random() < 0.3 else []) + [[H, hkids, 0]] + ([[H, [[G, [], 0]], 0]] if rnd.random() < 0.4 else [])
+            tree = [F, fkids, 0]
+            res.count("shaped_sibling_cases")
         chain = rnd.random() < 0.5
         mode = "overlay" if rnd.random() < 0.5 else "probing"
         case = {"part": "rand", "nf": nf, "tree": tree, "sel": sel, "fpath": fpath, "fvar": fvar, "chain": chain, "mode": mode}
